@@ -65,9 +65,10 @@ func (core *JApiCore) collectPathVariables(d *directive.Directive) *jerr.JApiErr
 
 	parentDirective := *d.Parent
 
-	if len(core.rawPathVariables) != 0 {
-		prevParent := core.rawPathVariables[len(core.rawPathVariables)-1].parentDirective
-		if prevParent.Equal(parentDirective) {
+	// A directive has at most one Path child, wherever the first one stands: a child with a
+	// Path of its own may lie between the two.
+	for i := range core.rawPathVariables {
+		if core.rawPathVariables[i].pathDirective.Parent == d.Parent {
 			return d.KeywordError(jerr.NotUniqueDirective)
 		}
 	}
